@@ -21,6 +21,52 @@ def H(name, op, enforce, fns, arity, prio, addr, extra=(), unwind=10, timeout=90
                replace_calls=[('OPT_CHECKLEN', 'stub_no_realloc_len'), ('OPT_ALLOCCOPY', 'stub_no_realloc_copy')], label=LABEL % (nmax, hmax), what=what)
 
 
+# ---- RadixHeap leaf functions (shims/radixheap.cpp, contracts/c13_radixheap.c) ----
+KEYS = {'u8': ('uint8_t', 8, 0), 'i8': ('int8_t', 8, 1), 'u16': ('uint16_t', 16, 0), 'i16': ('int16_t', 16, 1),
+        'u32': ('uint32_t', 32, 0), 'i32': ('int32_t', 32, 1), 'u64': ('uint64_t', 64, 0), 'i64': ('int64_t', 64, 1)}
+
+
+def rh_num_buckets(radix, bits):
+    """BucketComputation::num_buckets from its definition in the header comment: (Radix - 1) buckets per full row of
+    radix_bits bits, 2^rest - 1 for the incomplete top row, plus bucket 0"""
+    rb = radix.bit_length() - 1
+    n = 0
+    while bits >= rb: n += radix - 1; bits -= rb
+    return n + (1 << bits) - 1 + 1
+
+
+def rh_jobs(js):
+    quick = {(8, 'u64'), (8, 'i32'), (64, 'u16'), (2, 'i8'), (16, 'u8'), (4, 'i64')}
+    for radix in (2, 4, 8, 16, 32, 64):
+        for kn, (kt, bits, sg) in KEYS.items():
+            t = 'quick' if (radix, kn) in quick else 'thorough'
+            nb = rh_num_buckets(radix, bits)
+            rec = nb > 64
+            nch = (nb + 63) // 64 if rec else 1
+            sd = ['KEY_T=%s' % kt, 'RADIX=%d' % radix]
+            d = sd + ['KBITS=%d' % bits, 'KSIGNED=%d' % sg, 'NB=%d' % nb, 'BA_REC=%d' % rec, 'NCH=%d' % nch]
+            tag = 'r%d_%s' % (radix, kn)
+            def RJ(name, op, enforce, fns, extra=(), unwind=8, **kw):
+                js.append(Job(name='rh_%s_%s' % (name, tag), shim='radixheap', contract='c13_radixheap.c', harness='h_rh_' + name, enforce=[enforce], shim_defines=sd,
+                              defines=['OP_' + op] + d + list(extra), functions=fns, unwind=unwind, tier=t, timeout=600, label='complete: all %d-bit keys, radix %d' % (bits, radix), **kw))
+            IR = r'tlx::radix_heap_detail::IntegerRank<.*>::'
+            BC = r'tlx::radix_heap_detail::BucketComputation<.*>::'
+            BA = r'tlx::radix_heap_detail::BitArray(Recursive)?<.*>::'
+            if radix == 8:    # IntegerRank does not depend on the radix
+                RJ('rank', 'rank', 'c_rank', [IR + 'rank_of_int', IR + 'int_at_rank'], what='IntegerRank<%s>: order-preserving, int_at_rank inverts rank_of_int' % kt)
+            for w, nm, enf, wh in [(0, 'range', 'c_bucket_range', 'bucket index < num_buckets, bucket 0 <=> key == limit, first row holds one key per bucket'),
+                                   (1, 'mono', 'c_bucket_mono', 'bucket index is monotone in the key'),
+                                   (2, 'redistribute', 'c_bucket_redistribute', 'keys of the redistributed bucket land strictly below it under the new limit'),
+                                   (3, 'stable', 'c_bucket_stable', 'keys of buckets above the redistributed one keep their bucket under the new limit'),
+                                   (4, 'bounds', 'c_bucket_bounds', 'lower_bound / upper_bound delimit the keys of a bucket (limit 0)')]:
+                RJ('bucket_' + nm, 'bucket', enf, [BC + r'operator\(\)', BC + 'lower_bound', BC + 'upper_bound'][:1 if w < 4 else 3], ['WHICH=%d' % w], what='BucketComputation<%d, rank of %s>: %s' % (radix, kt, wh))
+            if sg == 0:       # the BitArray depends on num_buckets only: same for the signed type of the same width
+                for w, nm, enf, fn, wh in [(0, 'set', 'c_ba_set', ['set_bit'], 'set_bit(i) sets exactly bit i'), (1, 'clear', 'c_ba_clear', ['clear_bit'], 'clear_bit(i) clears exactly bit i'),
+                                           (2, 'find_lsb', 'c_ba_find_lsb', ['find_lsb'], 'find_lsb() is the smallest set index'), (3, 'empty', 'c_ba_empty', ['empty', 'clear_all'], 'empty() / clear_all() / constructor')]:
+                    RJ('ba_' + nm, 'bitarray', enf, [BA + x for x in fn], ['WHICH=%d' % w], mode='assert', unwind=nch * 8 + 16, resolve_types={'BA_T': r'^S_class_tlx__radix_heap_detail__BitArray$'},
+                       what='BitArray<%d>: %s, from any well-formed state' % (nb, wh))
+
+
 def jobs(tier):
     js = []
     cfgs = [(2, 0, 'quick'), (3, 1, 'quick'), (1, 0, 'thorough'), (4, 0, 'thorough'), (8, 0, 'thorough'), (2, 1, 'thorough'), (3, 0, 'thorough')]
@@ -68,6 +114,7 @@ def jobs(tier):
         D('extract_top', 'pop', 'c_pop', [r'extract_top\(\)'], ['KIND=2'], what='DAryHeap extract_top()')
         D('observe', 'observe', 'c_observe', [r'size\(\) const', r'empty\(\) const', r'top\(\) const'], what='DAryHeap size/empty/top')
         D('clear', 'clear', 'c_clear', [r'clear\(\)'], what='DAryHeap clear()')
+    rh_jobs(js)
     return js
 
 
